@@ -211,7 +211,8 @@ Qed.
 Lemma trigger_unknown_quiet f own sid id args w :
   (hashable sid && hashable id = false \/
    aget sid (cbs (w_st w)) = None \/
-   exists d, aget sid (cbs (w_st w)) = Some d /\ aget id d = None) ->
+   exists d, aget sid (cbs (w_st w)) = Some d /\
+             (aget id d = None \/ exists n, aget id d = Some (Counter n))) ->
   quiet w (fst (trigger (S f) own sid id args w)).
 Proof.
   intros H. cbn [trigger]. unfold bindM at 1. cbn [say].
@@ -228,12 +229,15 @@ Proof.
     destruct (aget sid (cbs (w_st w))) as [d|] eqn:Ed.
     + destruct (hashable id) eqn:Hi.
       * unfold bindM at 1. cbn [ret].
-        destruct (aget id d) as [sl|] eqn:Ei.
-        { exfalso. destruct H as [H|[H|(d' & H1 & H2)]];
-            [try rewrite Hs in H; try rewrite Hi in H; discriminate H | congruence | congruence]. }
-        cbn [raise]. unfold bindM at 1. cbn [say]. cbn [ret fst].
-        eapply quiet_trans; [exact Q1|]. eapply quiet_trans; [exact Qf|].
-        repeat split. exists [ELogWarn]. split; reflexivity.
+        assert (W : forall w3, w3 = w2 ->
+                  quiet w (fst ((say ELogWarn >> ret (@None cbslot)) w3))).
+        { intros w3 ->. unfold bindM. cbn [say ret fst].
+          eapply quiet_trans; [exact Q1|]. eapply quiet_trans; [exact Qf|].
+          repeat split. exists [ELogWarn]. split; reflexivity. }
+        destruct (aget id d) as [[n|n|h x y z]|] eqn:Ei.
+        2, 3: exfalso; destruct H as [H|[H|(d' & H1 & [H2|(n' & H2)])]];
+            [try rewrite Hs in H; try rewrite Hi in H; discriminate H | congruence | congruence | congruence].
+        all: cbn [raise]; apply W; reflexivity.
       * unfold bindM at 1. cbn [raise fst].
         eapply quiet_trans; eassumption.
     + cbn [raise]. unfold bindM at 1. cbn [say]. cbn [ret fst].
@@ -245,7 +249,8 @@ Qed.
 Lemma op_trigger_unknown_quiet own sid id args w :
   (hashable sid && hashable id = false \/
    aget sid (cbs (w_st w)) = None \/
-   exists d, aget sid (cbs (w_st w)) = Some d /\ aget id d = None) ->
+   exists d, aget sid (cbs (w_st w)) = Some d /\
+             (aget id d = None \/ exists n, aget id d = Some (Counter n))) ->
   quiet w (fst (op_trigger own sid id args w)).
 Proof.
   intros H. unfold op_trigger. unfold bindM. cbn [getst]. apply trigger_unknown_quiet. exact H.
@@ -301,14 +306,14 @@ Proof.
   destruct (dreq k_data kv); [discriminate H|reflexivity].
 Qed.
 
-(* C15_inert, one message: every class of ineffective message except the counter slot leaves the
-   manager state as it was and produces nothing an application or client can observe -
-   whatever the state, the fault script, the encoding *)
+(* C15_inert, one message: every class of ineffective message leaves the manager state as it was
+   and produces nothing an application or client can observe - whatever the state, the fault
+   script, the encoding *)
 Theorem inert_step own a s it c :
-  classify own s it = Some c -> c <> BCallbackCounter ->
+  classify own s it = Some c ->
   fst (step own a s it) = s /\ filter observable (snd (step own a s it)) = [].
 Proof.
-  intros H NC. destruct it as [m pk js fs | e | sid id args fs]; try discriminate H.
+  intros H. destruct it as [m pk js fs | e | sid id args fs]; try discriminate H.
   apply step_of_quiet_body. set (w0 := mkW s fs [] []).
   unfold classify in H.
   destruct (decode m pk js) as [| b | z | t | st | st | l | l | kv | n] eqn:D.
@@ -324,8 +329,9 @@ Proof.
     apply op_trigger_unknown_quiet. cbn [w0 w_st].
     destruct (hashable sid && hashable id) eqn:Hh; [|left; reflexivity]. right.
     destruct (aget sid (cbs s)) as [d|] eqn:Ed; [|left; reflexivity]. right. exists d. split; [reflexivity|].
-    destruct (aget id d) as [[n|n|h x y z]|] eqn:Ei; try reflexivity; try discriminate H.
-    inversion H; subst. contradiction NC; reflexivity. }
+    destruct (aget id d) as [[n|n|h x y z]|] eqn:Ei; try discriminate H.
+    - right. exists n. reflexivity.
+    - left. reflexivity. }
   destruct (py_eq (dget k_host_id kv) own) eqn:C2; cbn [negb]; [apply quiet_refl|].
   destruct (py_eq meth (PStr m_emit)) eqn:C3.
   { rewrite handle_emit_malformed_quiet; [apply quiet_refl|].
@@ -345,40 +351,39 @@ Proof.
   apply quiet_refl.
 Qed.
 
-(* C15_inert: removing an ineffective message from anywhere in the channel changes neither the
-   final manager state nor the observable effects *)
+(* C15_inert: removing an ineffective message (any of the twelve classes) from anywhere in the channel
+   changes neither the final manager state nor the observable effects *)
 Theorem inert_anywhere own a s pre bad post c :
-  classify own (fst (run own a s pre)) bad = Some c -> c <> BCallbackCounter ->
+  classify own (fst (run own a s pre)) bad = Some c ->
   visible own a s (pre ++ bad :: post) = visible own a s (pre ++ post).
 Proof.
-  intros H NC. unfold visible.
+  intros H. unfold visible.
   rewrite (run_app own a pre s (bad :: post)), (run_app own a pre s post).
   set (s1 := fst (run own a s pre)) in *.
-  rewrite run_cons. destruct (inert_step own a s1 bad c H NC) as (E1 & E2).
+  rewrite run_cons. destruct (inert_step own a s1 bad c H) as (E1 & E2).
   cbn [fst snd]. rewrite E1.
   rewrite !concat_app. cbn [List.concat]. rewrite !filter_app. rewrite E2. reflexivity.
 Qed.
 
-(* the class that is NOT ineffective: a callback message whose id is 0 (or False) reaches slot 0 of
-   callbacks[sid], the itertools.count that issues ids; trigger_callback deletes it, and every
-   later emit with a callback to that sid raises KeyError(0) in _generate_ack_id *)
-Theorem inert_counter_refuted : exists own a s pre bad post,
-  classify own (fst (run own a s pre)) bad = Some BCallbackCounter /\
-  visible own a s (pre ++ bad :: post) <> visible own a s (pre ++ post).
-Proof.
-  set (c1 := PStr (s2l "c1")). set (ns := PStr (s2l "/")).
-  exists (PStr (s2l "A")), false,
-    (mkMgr [(ns, [(PNone, [(c1, PStr (s2l "e1"))]); (c1, [(c1, PStr (s2l "e1"))])])]
-           [(c1, [(PInt 0%Z, Counter 2%Z); (PInt 1%Z, CbApp 1)])]),
-    [],
-    (IMsg (PDict [(PStr k_method, PStr k_callback); (PStr k_host_id, PStr (s2l "A")); (PStr k_sid, c1);
-                  (PStr k_id, PInt 0%Z); (PStr k_args, PList [])]) None None []),
-    [IMsg (PDict [(PStr k_method, PStr m_emit); (PStr k_event, PStr (s2l "ev")); (PStr k_data, PInt 1%Z);
-                  (PStr k_namespace, ns); (PStr k_room, c1);
-                  (PStr k_callback, PTuple [c1; ns; PInt 7%Z]); (PStr k_host_id, PStr (s2l "B"))]) None None []].
-  split; [vm_compute; reflexivity|].
-  intros E. vm_compute in E. discriminate E.
-Qed.
+(* the former exception (python-socketio before "an ACK with id 0 no longer pops the ack id
+   generator"): a callback message whose id is 0 reached slot 0 of callbacks[sid], the
+   itertools.count that issues ids, and deleted it.  Now only callables are callbacks: the message
+   is logged as unknown, the generator stays, and the emit with callback that follows is delivered *)
+Example counter_slot_survives :
+  let c1 := PStr (s2l "c1") in let ns := PStr (s2l "/") in
+  let s := mkMgr [(ns, [(PNone, [(c1, PStr (s2l "e1"))]); (c1, [(c1, PStr (s2l "e1"))])])]
+                 [(c1, [(PInt 0%Z, Counter 2%Z); (PInt 1%Z, CbApp 1)])] in
+  let bad := IMsg (PDict [(PStr k_method, PStr k_callback); (PStr k_host_id, PStr (s2l "A")); (PStr k_sid, c1);
+                          (PStr k_id, PInt 0%Z); (PStr k_args, PList [])]) None None [] in
+  let post := [IMsg (PDict [(PStr k_method, PStr m_emit); (PStr k_event, PStr (s2l "ev")); (PStr k_data, PInt 1%Z);
+                            (PStr k_namespace, ns); (PStr k_room, c1);
+                            (PStr k_callback, PTuple [c1; ns; PInt 7%Z]); (PStr k_host_id, PStr (s2l "B"))])
+                     None None []] in
+  classify (PStr (s2l "A")) s bad = Some BCallbackCounter /\
+  step (PStr (s2l "A")) false s bad = (s, [EOp OTrigger [c1; PInt 0%Z; PList []]; ELogWarn]) /\
+  snd (visible (PStr (s2l "A")) false s (bad :: post)) =
+    [ESend (PStr (s2l "e1")) (PTuple [ns; PList [PStr (s2l "ev"); PInt 1%Z]; PInt 2%Z])].
+Proof. vm_compute. repeat split. Qed.
 
 (* ================================================================== *)
 (* 3. Foreign acknowledgements and own echoes are not applied          *)
